@@ -222,9 +222,10 @@ struct qs_agent {
 			auto node = _pending.front();
 			if(ctr < node->_target_qs_counter)
 				break;
+			// Unlink the node first: the callback is allowed to free or reuse it.
+			_pending.pop_front();
 			node->_target_qs_counter = 0;
 			node->on_grace_period(node);
-			_pending.pop_front();
 		}
 	}
 
